@@ -1,5 +1,6 @@
 import PdshVerif.Dsh.Signals
 import PdshVerif.Dsh.SignalsOutput
+import PdshVerif.Dsh.SignalsMask
 import Driver.Util
 
 /-! engine `sig`: trace acceptor for the projected traces of the `sched` harness with signals (C20).
@@ -12,6 +13,11 @@ import Driver.Util
                                    unsignalled threads, threads blocked on something else, t[i].state
                                    digits (0 NEW 1 RCMD 2 READING 3 DONE 4 FAILED 5 CANCELED)  -> ok | reject ..
     ev D <createS|lock|wait|wake 0|wake 1|relock|create j|unlock|cancelS|return>
+    ev D <mask|unmask>             dsh()'s `_mask_signals (SIG_BLOCK)` / `(SIG_UNBLOCK)`: steps of the wrapper
+                                   `Dsh/SignalsMask.lean` (`mstep`), which lets the dispatcher act only in between.  The
+                                   harness's signals are virtual (queued for sigwait wherever dsh() is): the acceptor runs
+                                   the wrapper with "everything inherited blocked and ignored", so that a signal outside
+                                   the masked phase is counted, never acted on
     ev W<i> <lockT|lockTF|time|unlockT|connectBegin|connectEnd 0|connectEnd 1|destroyBegin|destroyEnd|lock|signal|unlock>
     ev Z <sigwait int|sigwait tstp|time v|lockT|fwd h|unlockT|lock|unlock|stop|exit c|die>
                                    die: the thread ends on dsh()'s (deferred) cancellation request
@@ -23,13 +29,14 @@ import Driver.Util
     obs emit <W<i>|Z>              the thread makes a stdio call (fputs) now                -> ok | reject ..
     end <ok|exit c|deadlock|other> ok: dsh() returned; exit c: exit(c) was called; deadlock: nothing enabled
     After a reject every line up to the next `init` answers `skip`.
-    The transition function is `PdshVerif.Dsh.Sig.step`, the one the theorems are about. -/
+    The transition function is `PdshVerif.Dsh.Sig.mstep` (which runs `PdshVerif.Dsh.Sig.step` on every operation of the
+    LTS), the ones the theorems are about. -/
 namespace Driver.SigDrv
 open PdshVerif.Dsh.Sig
 open PdshVerif.Dsh.Fan (Variant DPC)
 
 structure Acc where
-  st : Option St := none
+  st : Option MSt := none
   dead : Bool := false
   /-- the signals thread has made the last clock reading of a listing it prints after releasing thd_mutex: the model
       has it back in sigwait, the implementation still writes the end of the last line (stdio calls the model does not
@@ -105,10 +112,18 @@ def parseLabel : List String → Option Label
 def zEnabled (s : St) : Bool :=
   (sActs s).any fun a => (a != .die || s.spc == .waiting) && (step s (.s a)).isSome
 
-def enabledNames (s : St) : List String :=
-  (if dEnabled s then ["D"] else []) ++
+def enabledNamesD (s : St) (d : Bool) : List String :=
+  (if d then ["D"] else []) ++
   (((List.range s.ws.length).filter (wEnabled s)).map fun i => s!"W{i}") ++
   (if zEnabled s then ["Z"] else []) ++ (if gEnabled s then ["G"] else [])
+
+def enabledNames (m : MSt) : List String := enabledNamesD m.p (mdEnabled m)
+
+/-- the harness's signals are virtual: see the header -/
+def harnessInh : Inh := { ign := fun _ => true, blk := fun _ => true }
+
+def showPh : MPh → String
+  | .fresh => "fresh" | .masked => "masked" | .unmasked => "unmasked"
 
 def showW : WP → String
   | .idle => "idle" | .started => "started" | .rcmdL => "rcmdL" | .skipL => "skipL" | .ready => "ready" | .connecting => "connecting"
@@ -156,8 +171,9 @@ def mayRunUnseen (s : St) (n : String) : Bool :=
     | some .started | some .reading | some .closing => true
     | _ => false
 
-def checkSt (s : St) (ztail : Bool) (tc r p x ts : String) : Option String :=
-  let en := enabledNames s
+def checkSt (m : MSt) (ztail : Bool) (tc r p x ts : String) : Option String :=
+  let s := m.p
+  let en := enabledNames m
   let known := fun (n : String) => n = "D" || n = "Z" || n.startsWith "W" || (s.sw && n = "G")
   let rs := (names r).filter known
   let xs := names x
@@ -220,7 +236,7 @@ def stepLine (a : Acc) (line : String) : Acc × String :=
     match f.toNat?, n.toNat?, t0.toNat? with
     | some f, some n, some t0 =>
       let v := if v = "if" then Variant.ifWait else Variant.whileWait
-      ({ st := some (init v (g = "guarded") (sw = "stopwdog") f n (b = "1") t0), dead := false, ztail := false }, "ok")
+      ({ st := some (minit harnessInh v (g = "guarded") (sw = "stopwdog") f n (b = "1") t0), dead := false, ztail := false }, "ok")
     | _, _, _ => (a, "bad-line")
   | "st" :: rest =>
     if a.dead then (a, "skip") else
@@ -232,29 +248,35 @@ def stepLine (a : Acc) (line : String) : Acc × String :=
     | _, _ => (a, "bad-line")
   | "ev" :: rest =>
     if a.dead then (a, "skip") else
-    match a.st, parseLabel rest with
-    | some s, some l =>
-      match step s l with
-      | some s' =>
+    let ml : Option MLabel := match rest with
+      | ["D", "mask"] => some .mask
+      | ["D", "unmask"] => some .unmask
+      | _ => (parseLabel rest).map .proto
+    match a.st, ml with
+    | some m, some l =>
+      match mstep m l with
+      | some m' =>
         let zt := match l with
-          | .s (.time _) => s.spc == .printing 0
-          | .s _ => false
+          | .proto (.s (.time _)) => m.p.spc == .printing 0
+          | .proto (.s _) => false
           | _ => a.ztail
-        ({ a with st := some s', ztail := zt }, "ok")
-      | none => ({ a with dead := true }, s!"reject not enabled in the model: {" ".intercalate rest} ({showSt s})")
+        ({ a with st := some m', ztail := zt }, "ok")
+      | none => ({ a with dead := true },
+                 s!"reject not enabled in the model: {" ".intercalate rest} (dsh()={showPh m.ph} {showSt m.p})")
     | _, _ => ({ a with dead := true }, "reject unknown event " ++ " ".intercalate rest)
   | "obs" :: rest =>
     if a.dead then (a, "skip") else
     match a.st with
-    | some s =>
-      match checkObs s rest with
+    | some m =>
+      match checkObs m.p rest with
       | none => (a, "ok")
       | some why => ({ a with dead := true }, "reject " ++ why)
     | none => (a, "bad-line")
   | "end" :: status =>
     if a.dead then (a, "skip") else
     match a.st with
-    | some s =>
+    | some m =>
+      let s := m.p
       match status with
       | ["ok"] =>
         if s.dpc = .returned then (a, "ok") else (a, s!"reject run ended but the model is not final ({showSt s})")
@@ -262,8 +284,8 @@ def stepLine (a : Acc) (line : String) : Acc × String :=
         if c.toNat?.isSome && c.toNat? = s.exited then (a, "ok")
         else (a, s!"reject implementation called exit({c}), model: {showSt s} exited={s.exited}")
       | ["deadlock"] =>
-        if enabledNames s = [] then (a, "ok")
-        else (a, s!"reject implementation deadlocked, model has enabled {enabledNames s}")
+        if enabledNames m = [] then (a, "ok")
+        else (a, s!"reject implementation deadlocked, model has enabled {enabledNames m}")
       | _ => (a, "ok")
     | none => (a, "bad-line")
   | _ => (a, "bad-line")
